@@ -65,7 +65,7 @@ func flatten(n *Node, out *[]leaf) {
 
 func isPop(beh string) bool { return beh == "pop-repush" || beh == "pop-unsup" || beh == "pop2-repush" }
 
-var conformingCoder = map[string]bool{"": true, "one": true, "one-arr": true, "one-tok": true, "unsup": true, "reset": true, "options": true}
+var conformingCoder = map[string]bool{"": true, "one": true, "one-arr": true, "one-tok": true, "unsup": true, "reset": true, "options": true, "nested": true, "nested-ok": true, "nested-ws": true}
 var conformingBytes = map[string]bool{"": true, "one": true, "one-arr": true}
 var conformingText = map[string]bool{"": true, "one": true, "empty": true}
 
@@ -121,7 +121,7 @@ func chain(c *Case, leaves []leaf, recv []int, str bool) []cand {
 
 func mValues(pos string) (n int, str bool) {
 	switch pos {
-	case "slice", "array-val", "array-ptr", "slice2":
+	case "slice", "array-val", "array-ptr", "slice2", "imap-val":
 		return 2, false
 	case "nil-ptr", "top-nil", "iface-nilptr":
 		return 0, false
@@ -141,6 +141,8 @@ func mWrap(pos string, reps []string) string {
 		return "[" + reps[0] + "," + reps[1] + "]"
 	case "slice2":
 		return "[[" + reps[0] + "," + reps[1] + "]]"
+	case "imap-val":
+		return `{"1":` + reps[0] + `,"2":` + reps[1] + `}` // Deterministic is forced at this position
 	case "map-key":
 		return "{" + reps[0] + ":0}"
 	case "map-val":
@@ -166,7 +168,7 @@ type mItem struct {
 
 func mItems(pos string) []mItem {
 	switch pos {
-	case "slice", "array-val", "array-ptr", "slice2":
+	case "slice", "array-val", "array-ptr", "slice2", "imap-val":
 		return []mItem{{label: "1", idx: 0}, {label: "2", idx: 1}}
 	case "nil-ptr", "top-nil", "iface-nilptr":
 		return nil
@@ -213,7 +215,7 @@ func modelMarshal(c *Case, recv [4]int) expect {
 					e.nonconf = true
 				}
 				switch beh {
-				case "one", "reset", "options":
+				case "one", "reset", "options", "nested-ok", "nested-ws":
 					rep, ok, winner = q, true, cd.id
 					break walk
 				case "one-arr":
@@ -425,7 +427,7 @@ func modelUnmarshal(c *Case, recv [3]int) (e expect, doc string) {
 					e.nonconf = true
 				}
 				switch beh {
-				case "one", "reset", "options":
+				case "one", "reset", "options", "nested":
 					set(cd.id + ":" + text)
 					ok, winner = true, cd.id
 					break walk
